@@ -121,6 +121,14 @@ func NewVegasLimitWithRegistry(
 		maxConcurrency = 1000
 	}
 
+	// the estimate is clamped to maxConcurrency on every update; do not start above it
+	if initialLimit > maxConcurrency {
+		initialLimit = maxConcurrency
+		if initialLimit < 1 {
+			initialLimit = 1
+		}
+	}
+
 	if smoothing < 0 || smoothing > 1.0 {
 		smoothing = 1.0
 	}
